@@ -10,8 +10,12 @@ import time
 VERIF = os.path.dirname(os.path.dirname(os.path.abspath(__file__)))
 REPO = os.environ.get("VERIF_REPO", "/repo")
 SPEC = os.path.join(VERIF, "spec")
-EVID = os.path.join(VERIF, "evidence")
-REPLAYS = os.path.join(VERIF, "replays")
+if os.path.realpath(REPO) == "/repo":
+    EVID = os.path.join(VERIF, "evidence")
+    REPLAYS = os.path.join(VERIF, "replays")
+else:           # a scratch copy (mutation testing): never touch the committed evidence / replays
+    EVID = os.path.join(tempfile.gettempdir(), "verif-scratch-evidence")
+    REPLAYS = os.path.join(tempfile.gettempdir(), "verif-scratch-replays")
 PY = "/venv/bin/python"
 NCPU = int(os.environ.get("VERIF_NCPU", str(os.cpu_count() or 4)))
 
